@@ -97,12 +97,28 @@ def uninstall():
     wf.mmap = real_mmap
 
 
+_HELD = []
+
+
 def do_read(obj, k):
     """one access: obj[k], or ["iter", n] = the first n items of a fresh iteration, or ["slice", a, b] = obj[a:b]"""
     if isinstance(k, list):
         if k[0] == "open":
             obj.open()      # documented as an empty operation on an object that is already open
             return "opened"
+        if k[0] == "nofd":
+            # this (forked) process runs out of file descriptors: every slot below its (lowered) soft limit is taken. Closing a
+            # descriptor still frees a slot, so "close the inherited handle, then open an own one" keeps working
+            import resource
+            soft, hard = resource.getrlimit(resource.RLIMIT_NOFILE)
+            top = max(int(x) for x in os.listdir("/proc/self/fd")) + 12
+            resource.setrlimit(resource.RLIMIT_NOFILE, (min(top, soft), hard))
+            try:
+                while True:
+                    _HELD.append(os.open(os.devnull, os.O_RDONLY))
+            except OSError:
+                pass
+            return "nofd"
         if k[0] == "iter":
             import itertools
             return list(itertools.islice(iter(obj), k[1]))
